@@ -775,7 +775,9 @@ def check_C05(chk):
     if not all(bins.values()):
         return
     base = [0, 1, 2, 4095, 4096, 4097, 8191, 8192, 8193]
-    lens = base + [rng.randrange(0, 70000) for _ in range(10)] + ([1 << 20, 32 << 20, (32 << 20) - 1] if thorough else [1 << 20])
+    # sizes around the huge-page size too (2 MiB and a little more / less): backing objects may be sized in coarser units than the region
+    lens = base + [rng.randrange(0, 70000) for _ in range(10)] + ([1 << 20, 32 << 20, (32 << 20) - 1, (2 << 20) - 1, 2 << 20, (2 << 20) + 1, (4 << 20) + 4097, 2109497]
+                                                                 if thorough else [1 << 20, (2 << 20) + 1, (4 << 20) + 4097])
     cases, nid = [], itertools.count(1)
     for L in lens:
         for nreg in ((1, 2, 8) if L < 100000 else (1,)):
